@@ -6165,12 +6165,11 @@ fn eval_built_in_method_call(
 
             let mut value = Value::none();
             if let Some(needle_byte_offset) = receiver_s.find(arg_s) {
-                for (i, (byte_offset, _)) in receiver_s.char_indices().enumerate() {
-                    if byte_offset == needle_byte_offset {
-                        value = Value::some(Value::new(Value_::Int(i as i64)));
-                        break;
-                    }
-                }
+                // Convert the byte offset to a character offset. The
+                // match may be at the very end (an empty needle in an
+                // empty string), where there is no character to find.
+                let char_offset = receiver_s[..needle_byte_offset].chars().count();
+                value = Value::some(Value::new(Value_::Int(char_offset as i64)));
             }
 
             if expr_value_is_used {
